@@ -61,8 +61,8 @@ def rule_globals(rep: Report, repo: Repo) -> None:
             elif isinstance(st, ast.AnnAssign) and isinstance(st.target, ast.Name) and st.value is not None:
                 tgt, val = st.target.id, st.value
             if tgt and isinstance(val, (ast.Dict, ast.List, ast.Set)) and not tgt.isupper() and not tgt.startswith('__'):
-                if isinstance(val, ast.Dict) and val.keys and tgt in ('op_string_to_function', 'char_escape_dict'):
-                    continue          # constant tables, never written (C13.IMMUT checks stores)
+                if (isinstance(val, ast.Dict) and val.keys) or (isinstance(val, (ast.List, ast.Set)) and val.elts):
+                    continue          # a table written out as a non-empty literal: constant by use - the read-only audit below covers every use of it
                 containers.append(f'{rel.split("/")[-1]}:{tgt}')
     rep.check(containers == ['fj_parser.py:_stl_prefix_cache', 'ops.py:INITIAL_ARGS'] or containers == ['fj_parser.py:_stl_prefix_cache'], 'C13.GLOBALS',
               'module-level containers', str(containers), PARSER, expected='only the stl prefix cache (keyed, see C13.CACHE-KEY) and the empty INITIAL_ARGS')
